@@ -19,14 +19,20 @@ pub struct DispCase {
     /// typed parse requested ("" = none: auto / plugins only)
     pub requested: String,
     pub body: String,
+    /// block 2 is an output header (O…) instead of an input header
+    #[serde(default)]
+    pub output_header: bool,
 }
 
 impl DispCase {
     pub fn text(&self) -> String {
-        format!(
-            "{{1:F01BANKDEFFAXXX0000000000}}{{2:I{}BANKUS33AXXXN}}{{4:\n{}-}}",
-            self.announced, self.body
-        )
+        if self.output_header {
+            format!("{{1:F01BANKDEFFAXXX0000000000}}{{2:O{}1200240101BANKUS33AXXX00000000002401011201N}}{{4:
+{}-}}", self.announced, self.body)
+        } else {
+            format!("{{1:F01BANKDEFFAXXX0000000000}}{{2:I{}BANKUS33AXXXN}}{{4:
+{}-}}", self.announced, self.body)
+        }
     }
 }
 
@@ -34,6 +40,9 @@ impl DispCase {
 pub fn body(mt: &str, k: u64, seed: u64) -> Option<String> {
     let data: Vec<u32> = if k == 0 {
         Vec::new()
+    } else if k == 1 {
+        // every optional present, last option letters, larger repetition counts
+        vec![0xFFFF_FFF0; 1500]
     } else {
         (0..1500)
             .map(|i| splitmix(seed ^ (k * 7919 + i)) as u32)
@@ -306,9 +315,9 @@ pub fn oracle(c: &DispCase, obs: &mut Obs) -> Vec<Violation> {
 }
 
 pub fn run(ctx: &Ctx) {
-    ctx.add_rule("enumerated: for each of the 30 types, K valid bodies (K=3 quick, 12 thorough; first one minimal) x all 30 requested types through parse::<T>, x all 1000 three-digit codes in block 2 through parse_auto / parse_mt / validate_mt / publish_mt and ParsedSwiftMessage accessors; non-trivial = all; distinct by (announced, requested, text)");
+    ctx.add_rule("enumerated: for each of the 30 types, K valid bodies (K=5 quick, 16 thorough; the first minimal, the second with every optional field present), input and output application headers x all 30 requested types through parse::<T>, x all 1000 three-digit codes in block 2 through parse_auto / parse_mt / validate_mt / publish_mt and ParsedSwiftMessage accessors; non-trivial = all; distinct by (announced, requested, text)");
     ctx.exhaustive("30 x 30 (announced, requested) pairs; all 1000 type codes per body");
-    let k = ctx.n(3, 12) as u64;
+    let k = ctx.n(5, 16) as u64;
     let seed = ctx.seed;
     let to_json = |c: &DispCase| serde_json::to_value(c).unwrap();
     ctx.run_enumerated(
@@ -323,12 +332,15 @@ pub fn run(ctx: &Ctx) {
                     None => continue,
                 };
                 for u in MSGS {
-                    v.push(DispCase {
-                        body_mt: mt.to_string(),
-                        announced: mt.to_string(),
-                        requested: u.mt.to_string(),
-                        body: b.clone(),
-                    });
+                    for output_header in [false, true] {
+                        v.push(DispCase {
+                            body_mt: mt.to_string(),
+                            announced: mt.to_string(),
+                            requested: u.mt.to_string(),
+                            body: b.clone(),
+                            output_header,
+                        });
+                    }
                 }
                 for code in 0..1000 {
                     if j > 0 && code % 7 != (j as usize) % 7 && !supported(&format!("{:03}", code))
@@ -339,6 +351,7 @@ pub fn run(ctx: &Ctx) {
                         body_mt: mt.to_string(),
                         announced: format!("{:03}", code),
                         requested: String::new(),
+                        output_header: code % 2 == 1,
                         body: b.clone(),
                     });
                 }
